@@ -296,3 +296,29 @@ func GenDeepLagSteps(rt *rapid.T, cfg Config, o GenOpts) []Step {
 	}
 	return steps
 }
+
+// GenRelaySteps: knowledge that reaches the others only second-hand. After some progress every timer fires, but only replica
+// x (stack index) gets to hear the timeouts, so only x assembles the certificate and moves on; what x then sends reaches one
+// or two others; everything else in flight is lost. (The caller typically cuts x off afterwards: whoever learned the
+// certificate from x must be able to pass it on.)
+func GenRelaySteps(rt *rapid.T, cfg Config, x int) []Step {
+	var steps []Step
+	for i, n := 0, rapid.IntRange(0, 4).Draw(rt, "warm"); i < n; i++ {
+		steps = append(steps, Step{K: KBurst, C: rapid.IntRange(0, 5).Draw(rt, "rounds")})
+	}
+	if rapid.IntRange(0, 2).Draw(rt, "loseprop") > 0 {
+		steps = append(steps, Step{K: KDropAll}) // the pending proposal / votes are lost: the view fails
+	}
+	for r, rounds := 0, rapid.IntRange(1, 2).Draw(rt, "relayrounds"); r < rounds; r++ {
+		steps = append(steps, Step{K: KTimeoutAll})
+		for i, n := 0, rapid.IntRange(2*cfg.N, 4*cfg.N).Draw(rt, "tox"); i < n; i++ {
+			steps = append(steps, Step{K: KDeliverTo, B: x})
+		}
+		// what x sent after moving on (new-view to the next leader, perhaps a proposal) reaches a few others
+		for i, n := 0, rapid.IntRange(0, 4).Draw(rt, "fromx"); i < n; i++ {
+			steps = append(steps, Step{K: KDeliverTo, B: rapid.IntRange(0, cfg.N-1).Draw(rt, "to")})
+		}
+		steps = append(steps, Step{K: KDropAll})
+	}
+	return steps
+}
